@@ -201,6 +201,8 @@ pub struct Minimised {
     pub fail_side: String,
     pub cause: String,
     pub trials: usize,
+    /// how many times a replay may have to be attempted (1 unless the source is uncontrolled)
+    pub attempts: usize,
 }
 
 /// Confirm in fresh processes and minimise.  `Err` = could not be reproduced.
@@ -257,7 +259,43 @@ fn minimise(scenario: &str, p: P, fail_env: &Env, prelude_fail: &[Job], prelude_
                     chunk = (chunk / 2).max(1);
                 }
             }
-            None => return Err("difference seen in the batch did not reproduce in fresh processes, with or without its process history".into()),
+            None => {
+                // Last resort: a source the simulator does not own (threads the library spawns
+                // itself, memory addresses, real time inside such threads) varies from run to
+                // run even in one environment. Repeat both runs a few times; a difference between
+                // two runs of the SAME environment is reported as such.
+                let mut found = None;
+                for _ in 0..6 {
+                    let r1 = run(p, &e0, &[]);
+                    if let Some(x) = differs(&reference, &r1) {
+                        found = Some((e0.clone(), x));
+                        break;
+                    }
+                    let f1 = run(p, fail_env, &[]);
+                    if let Some(x) = differs(&reference, &f1) {
+                        found = Some((fail_env.clone(), x));
+                        break;
+                    }
+                }
+                match found {
+                    Some((env, (field, a, b))) => {
+                        return Ok(Minimised {
+                            scenario: scenario.to_string(),
+                            p,
+                            env_ref: e0.clone(),
+                            cause: if env == e0 { "uncontrolled (two runs in the identical reference environment differ)".into() } else { format!("uncontrolled+{}", cause_of(&env, &e0)) },
+                            env_fail: env,
+                            prelude: vec![],
+                            field,
+                            ref_side: a,
+                            fail_side: b,
+                            trials: trials_c.get(),
+                            attempts: 12,
+                        })
+                    }
+                    None => return Err("difference seen in the batch did not reproduce in fresh processes, with or without its process history, in 12 further runs".into()),
+                }
+            }
         }
     }
     let mut cur = fail_env.clone();
@@ -353,6 +391,7 @@ fn minimise(scenario: &str, p: P, fail_env: &Env, prelude_fail: &[Job], prelude_
         ref_side: a,
         fail_side: b,
         trials: trials_c.get(),
+        attempts: 1,
     })
 }
 
@@ -550,7 +589,7 @@ pub fn check(tier: &str, seed: u64, only: Option<&str>) -> i32 {
                         "scenario": m.scenario, "p": m.p, "env_ref": m.env_ref, "env_fail": m.env_fail,
                         "prelude": m.prelude, "cause": m.cause,
                         "first_difference": {"field": m.field, "reference": m.ref_side, "failing": m.fail_side},
-                        "occurrences_in_batch": list.len(), "minimisation_trials": m.trials,
+                        "occurrences_in_batch": list.len(), "minimisation_trials": m.trials, "replay_attempts": m.attempts,
                     }),
                 );
                 println!("  C20: scenario {} diverges at `{}` when only [{}] differs from the reference environment", m.scenario, m.field, m.cause);
@@ -667,18 +706,17 @@ pub fn replay(v: &serde_json::Value) -> i32 {
     let env_ref: Env = serde_json::from_value(v["env_ref"].clone()).unwrap_or_else(|e| harness_error(&format!("replay env_ref: {e}")));
     let env_fail: Env = serde_json::from_value(v["env_fail"].clone()).unwrap_or_else(|e| harness_error(&format!("replay env_fail: {e}")));
     let prelude: Vec<Job> = serde_json::from_value(v["prelude"].clone()).unwrap_or_default();
-    let a = outcome(&fresh(&scenario, p, &env_ref, &[]));
-    let b = outcome(&fresh(&scenario, p, &env_fail, &prelude));
-    match differs(&a, &b) {
-        Some((f, x, y)) => {
-            println!("C20 replay: scenario {scenario} diverges at `{f}`\n  reference [{}]: {x}\n  failing   [{}]: {y}", env_ref.describe(), env_fail.describe());
-            1
-        }
-        None => {
-            println!("C20 replay: identical fingerprints on this tree");
-            0
+    let attempts = v["replay_attempts"].as_u64().unwrap_or(1).max(1);
+    for k in 0..attempts {
+        let a = outcome(&fresh(&scenario, p, &env_ref, &[]));
+        let b = outcome(&fresh(&scenario, p, &env_fail, &prelude));
+        if let Some((f, x, y)) = differs(&a, &b) {
+            println!("C20 replay: scenario {scenario} diverges at `{f}` (attempt {})\n  reference [{}]: {x}\n  failing   [{}]: {y}", k + 1, env_ref.describe(), env_fail.describe());
+            return 1;
         }
     }
+    println!("C20 replay: identical fingerprints on this tree ({attempts} attempt(s))");
+    0
 }
 
 /// Determinism of the simulator itself: the same jobs at host parallelism 16, 3 and 1
